@@ -147,14 +147,17 @@ Definition count_gev (e : gev) (tr : list gev) : nat :=
 (* ------------------------------------------------------------------------------------------
    Driver level (used by the tie): what the Go harness does to a real system. *)
 Inductive daction :=
-| DSpawn (p c : nat)          (* parent.SpawnChild(c) (actor 0 is the top-level root spawned by the harness) *)
+| DSpawn (p c : nat)          (* parent.SpawnChild(c) (actor 0 is the user guardian: sys.Spawn) *)
 | DSpawnGated (p c : nat)     (* go parent.SpawnChild(c), PreStart blocked *)
 | DSpawnRelease (c : nat)
 | DActivate (g : nat)         (* GrainIdentity *)
 | DUserPill (g : nat)         (* TellGrain(PoisonPill) *)
 | DUserPill2 (g : nat)        (* two PoisonPills back to back *)
 | DTell (a : nat)             (* Tell(actor a, msg): flag 0 accepted, 1 ErrDead, 2 refused/dead-lettered by the gate *)
-| DStop.                      (* ActorSystem.Stop(), returns *)
+| DKill (a : nat)             (* go a.Shutdown(): an individual stop, possibly held in a gated PostStop *)
+| DRelease (a : nat)          (* let a's gated PostStop return *)
+| DStop.                      (* ActorSystem.Stop() (go Stop() when some PostStop is gated): returns when the
+                                 user tree has stopped and the grains are deactivated *)
 
 Definition opt_or {A} (o : option A) (d : A) : A := match o with Some x => x | None => d end.
 
@@ -166,13 +169,28 @@ Fixpoint pill_all (ws : bool) (s : sys) (l : list nat) : sys :=
   | g :: l' => pill_all ws (opt_or (step ws s (LGrainPill g)) s) l'
   end.
 
-Definition drive (ws : bool) (n : nat) (s : sys) (d : daction) : sys * nat :=
+(* a Stop in progress goes as far as it can: the user tree to quiescence (gated PostStops hold it),
+   then the grains, then it returns *)
+Definition finish_stop (ws : bool) (gated : list nat) (n : nat) (s : sys) : sys :=
+  let s3 := with_tree s (StopModel.quiesce ws gated n (64 * S n) (tree s)) in
+  match ph s3 with
+  | PTree =>
+    match step ws s3 LTreeDone with
+    | Some s4 =>
+      let s5 := pill_all ws s4 (match ph s4 with PGrains l => l | _ => [] end) in
+      opt_or (step ws s5 LGrainsDone) s5
+    | None => s3
+    end
+  | _ => s3
+  end.
+
+Definition drive (ws : bool) (gated : list nat) (n : nat) (s : sys) (d : daction) : sys * nat :=
   match d with
   | DSpawn p c =>
     match run ws s [LTree (LSpawnCheck p c); LTree (LSpawnInit c); LTree (LSpawnAdd c)] with
     | Some s' => (s', 0) | None => (s, 1) end
   | DSpawnGated p c => match step ws s (LTree (LSpawnCheck p c)) with Some s' => (s', 0) | None => (s, 1) end
-  | DSpawnRelease c => match run ws s [LTree (LSpawnInit c); LTree (LSpawnAdd c)] with Some s' => (s', 0) | None => (s, 1) end
+  | DSpawnRelease c => match run ws s [LTree (LSpawnInit c); LTree (LSpawnAdd c)] with Some s' => (finish_stop ws gated n s', 0) | None => (s, 1) end
   | DActivate g => match step ws s (LActivate g) with Some s' => (s', 0) | None => (s, 1) end
   | DUserPill g => match run ws s [LUserPill g; LGrainPill g] with Some s' => (s', 0) | None => (s, 1) end
   | DUserPill2 g => match run ws s [LUserPill g; LUserPill g; LGrainPill g; LGrainPill g] with Some s' => (s', 0) | None => (s, 1) end
@@ -181,33 +199,38 @@ Definition drive (ws : bool) (n : nat) (s : sys) (d : daction) : sys * nat :=
     | Some s' => (s', match sends s' with (_, _, Accepted) :: _ => 0 | (_, _, Dead) :: _ => 1 | _ => 2 end)
     | None => (s, 9)
     end
+  | DKill a =>
+    if Nat.eqb a 0 then (s, 1) else
+    (finish_stop ws gated n (opt_or (step ws s (LTree (LStopBegin a))) s), 0)
+  | DRelease a =>
+    match step ws s (LTree (LPostEnd a)) with
+    | Some s' => (finish_stop ws gated n s', 0)
+    | None => (s, 1)
+    end
   | DStop =>
     match step ws s LSysBegin with
-    | Some s1 =>
-      let s2 := opt_or (step ws s1 (LTree (LStopBegin 0))) s1 in
-      let s3 := with_tree s2 (StopModel.quiesce ws [] n (64 * S n) (tree s2)) in
-      match step ws s3 LTreeDone with
-      | Some s4 =>
-        let s5 := pill_all ws s4 (match ph s4 with PGrains l => l | _ => [] end) in
-        (opt_or (step ws s5 LGrainsDone) s5, 0)
-      | None => (s3, 3)
-      end
+    | Some s1 => (finish_stop ws gated n (opt_or (step ws s1 (LTree (LStopBegin 0))) s1), 0)
     | None => (s, 1)
     end
   end.
 
 Definition ph_code (p : phase) : nat := match p with PRun => 0 | PTree => 1 | PGrains _ => 2 | PDone => 3 end.
 
+Definition count_postE (a : nat) (tr : list ev) : nat :=
+  length (filter (fun e => match e with EPostE b => Nat.eqb a b | _ => false end) tr).
+
+(* per user actor 1..n-1: [number of completed PostStops; IsRunning]; per grain: [OnActivate count;
+   OnDeactivate count; active]; then the phase of Stop *)
 Definition observe (n k : nat) (s : sys) : list (list nat) :=
-  map (fun a => [b2n (ev_postE_in a (trace (tree s))); b2n (is_running (acts (tree s) a))]) (seq 1 (n - 1))
+  map (fun a => [count_postE a (trace (tree s)); b2n (is_running (acts (tree s) a))]) (seq 1 (n - 1))
   ++ map (fun g => [count_gev (GAct g) (gtrace s); count_gev (GDeact g) (gtrace s); b2n (g_active (grains s g))]) (seq 0 k)
   ++ [[ph_code (ph s)]].
 
-Fixpoint drive_obs (ws : bool) (n k : nat) (s : sys) (ds : list daction) : list (nat * list (list nat)) :=
+Fixpoint drive_obs (ws : bool) (gated : list nat) (n k : nat) (s : sys) (ds : list daction) : list (nat * list (list nat)) :=
   match ds with
   | [] => []
-  | d :: ds' => let '(s', f) := drive ws n s d in (f, observe n k s') :: drive_obs ws n k s' ds'
+  | d :: ds' => let '(s', f) := drive ws gated n s d in (f, observe n k s') :: drive_obs ws gated n k s' ds'
   end.
 
-Definition scenario_diff (ws : bool) (c : nat * nat * list daction * list (nat * list (list nat))) : option nat :=
-  let '(n, k, ds, expected) := c in StopModel.first_obs_diff 0 (drive_obs ws n k sys0 ds) expected.
+Definition scenario_diff (ws : bool) (c : list nat * nat * nat * list daction * list (nat * list (list nat))) : option nat :=
+  let '(gated, n, k, ds, expected) := c in StopModel.first_obs_diff 0 (drive_obs ws gated n k sys0 ds) expected.
